@@ -366,6 +366,14 @@ def expectedF (rows : Rows) (files : List (String × String)) (argv : List Strin
     match ← cleanSitesResult rows cut fl with
     | none => some badF
     | some r => some (okF r.rows (← filesPart (outs.map fun o => (o.1, numLines (if o.2 then r.kept else r.removed)))))
+  | ["codonalign", "-f", ntf] => do
+    -- cmd/codonalign.go: the protein alignment on stdin, the unaligned nucleotide sequences in the file; both
+    -- alphabets are the ones the readers detect; any refusal of `CodonAlign` is a failing status
+    let nts ← fileRows ntf
+    if rows.isEmpty || (nts.map Prod.fst).eraseDups.length != nts.length then none else
+    match codonAlign (autoAlphabet (rows.map Prod.snd)) (autoAlphabet (nts.map Prod.snd)) rows nts with
+    | some r => some (okF r "")
+    | none => some badF
   | _ => none
 
 /-- `compute entropy [-a] [-g]`: numbers are printed with three decimals -/
